@@ -17,10 +17,10 @@ FieldPool == {"NAME", "LEVEL", "COUNT"}
 ChainOf(f) == CASE f = "NAME" -> "REQ&TYPE[STRING]" [] f = "LEVEL" -> "OPT&ENUM[low,high,higher]" [] OTHER -> "REQ&TYPE[NUMBER]&RANGE[1,10]"
 Required(f) == f \in {"NAME", "COUNT"}
 AllStates == {"ok", "ok2", "bad", "missing", "null", "dup_ok_last", "dup_bad_last", "ambig", "casefold", "casefold2",
-              "numstr", "numstr_out", "numbad", "numover", "numfloat", "numbig", "dup_numstr", "dup_casefold"}
+              "numstr", "numstr_out", "numbad", "numover", "numfloat", "numbig", "dup_numstr", "dup_casefold", "numedge", "numedge_ok"}
 Applicable(f, st) ==
   CASE st \in {"ambig", "casefold", "casefold2", "dup_casefold"} -> f = "LEVEL"
-    [] st \in {"numstr", "numstr_out", "numbad", "numover", "numfloat", "numbig", "dup_numstr"} -> f = "COUNT"
+    [] st \in {"numstr", "numstr_out", "numbad", "numover", "numfloat", "numbig", "dup_numstr", "numedge", "numedge_ok"} -> f = "COUNT"
     [] OTHER -> TRUE
 (* the OCTAVE text of the value(s) written for a field in a state (two texts = the key is written twice) *)
 Ok(f)  == CASE f = "NAME" -> "\"some name\"" [] f = "LEVEL" -> "high" [] OTHER -> "5"
@@ -33,23 +33,28 @@ ValueTexts(f, st) ==
     [] st = "numstr" -> <<"\"7\"">> [] st = "numstr_out" -> <<"\"11\"">> [] st = "numbad" -> <<"\"7x\"">>
     [] st = "numover" -> <<"\"1e400\"">> [] st = "numbig" -> <<"\"9007199254740993\"">>
     [] st = "dup_numstr" -> <<"\"7\"", "\"7\"">> [] st = "dup_casefold" -> <<"HIGH", "HIGH">>
+    [] st = "numedge" -> <<"10.000000000000002">>        \* the float next above the bound: out of RANGE[1,10] as long as no digit is lost
+    [] st = "numedge_ok" -> <<"9.999999999999998">>      \* the float next below it
     [] OTHER (* numfloat *) -> <<"\"2.5\"">>
 Policies == {"REJECT", "WARN", "IGNORE", "NONE"}          \* NONE: no POLICY block (documented default: REJECT)
+(* where the routing target of a field comes from: written on the field | POLICY.DEFAULT_TARGET | nowhere (verdicts do not depend on it) *)
+TargetModes == {"field", "default", "none"}
 
 DefSp == [ind |-> 2, asg |-> "::", quote |-> FALSE, blank |-> FALSE, endOmit |-> FALSE]
 Spellings == IF Spell THEN {[ind |-> i, asg |-> a, quote |-> qq, blank |-> b, endOmit |-> e] :
                               i \in {2, 4}, a \in {"::", " :: "}, qq \in BOOLEAN, b \in BOOLEAN, e \in BOOLEAN}
              ELSE {DefSp}
 
-Init == \E fs \in (SUBSET FieldPool) \ {{}} : \E pol \in Policies :
+Init == \E fs \in (SUBSET FieldPool) \ {{}} : \E pol \in Policies : \E tg \in TargetModes :
           /\ Cardinality(fs) <= MaxFields
-          /\ sd = [fields |-> fs, policy |-> pol, inst |-> [f \in fs |-> "unset"], unknown |-> FALSE, sp |-> DefSp, done |-> FALSE]
+          /\ (tg = "default" => pol # "NONE")                   \* DEFAULT_TARGET lives in the POLICY block
+          /\ sd = [fields |-> fs, policy |-> pol, tgt |-> tg, inst |-> [f \in fs |-> "unset"], unknown |-> FALSE, sp |-> DefSp, done |-> FALSE]
 Fill == /\ ~sd.done
         /\ \E st \in [sd.fields -> StateSet] : \E u \in BOOLEAN : \E s \in Spellings :
              /\ \A f \in sd.fields : Applicable(f, st[f])
              /\ sd' = [sd EXCEPT !.inst = st, !.unknown = u, !.sp = s, !.done = TRUE]
 Next == Fill
-EmitCase == IF sd.done THEN PrintT(ToJson([fields |-> sd.fields, policy |-> sd.policy, unknown |-> sd.unknown, sp |-> sd.sp,
+EmitCase == IF sd.done THEN PrintT(ToJson([fields |-> sd.fields, policy |-> sd.policy, tgt |-> sd.tgt, unknown |-> sd.unknown, sp |-> sd.sp,
                                            inst |-> [f \in sd.fields |-> sd.inst[f]],
                                            chains |-> [f \in sd.fields |-> ChainOf(f)],
                                            texts |-> [f \in sd.fields |-> ValueTexts(f, sd.inst[f])]])) ELSE TRUE
@@ -57,7 +62,7 @@ EmitCase == IF sd.done THEN PrintT(ToJson([fields |-> sd.fields, policy |-> sd.p
 (* ---------------------------------------------------------------------------------- *)
 (* c = [fields (set), policy, unknown, inst (field -> state)] *)
 (* the verdict on the last value written for the field, by the semantics of Constraints.tla for these chains *)
-Final(st) == CASE st \in {"ok", "ok2", "dup_ok_last"} -> "ok"
+Final(st) == CASE st \in {"ok", "ok2", "dup_ok_last", "numedge_ok"} -> "ok"
                [] st \in {"missing"} -> "missing" [] st = "null" -> "null"
                [] OTHER -> "bad"        \* bad, dup_bad_last, dup_numstr, dup_casefold, ambig, casefold(2) (ENUM is case-sensitive), numeric strings (TYPE[NUMBER])
 MustError(c) == {f \in c.fields : LET s == Final(c.inst[f]) IN s = "bad" \/ (Required(f) /\ s \in {"missing", "null"})}
